@@ -311,3 +311,22 @@ func respellHeader(r *SplitMix, a []byte) ([]byte, bool) {
 	o := append([][]byte{mpEnc(nBin(hb))}, objs[1:]...)
 	return joinObjects(o), true
 }
+
+// boundaryCuts returns the truncations of a multi-packet message that a network cut produces
+// most naturally: after the header, after each payload packet, and just inside the next object
+// (after its first byte) — the places where a streaming decoder sees a clean end of input.
+func boundaryCuts(a []byte) (out [][]byte, tags []string) {
+	objs, ok := splitObjects(a)
+	if !ok {
+		return nil, nil
+	}
+	off := 0
+	for i := 0; i < len(objs)-1; i++ {
+		off += len(objs[i])
+		out = append(out, cloneBytes(a[:off]))
+		tags = append(tags, "cut-after-object")
+		out = append(out, cloneBytes(a[:off+1]))
+		tags = append(tags, "cut-inside-next-object")
+	}
+	return
+}
